@@ -149,7 +149,7 @@ def load_model(chk, G, drv):
     V.n = len(G.elems); V.na = len(G.attrs); V.nk = len(G.kws)
     V.EN = G.elem_names; V.AN = G.attr_names; V.KN = G.kws.items
     info = drv.ask('info').split()
-    ok = info[:1] == ['ok'] and [int(x) for x in info[1:]] == [V.n, G.n_schema_elems, V.na, G.n_schema_attrs, V.nk, len(G.defnames)]
+    ok = info[:1] == ['ok'] and [int(x) for x in info[1:]] == [V.n, G.n_schema_elems, V.na, G.n_schema_attrs, V.nk, len(G.defnames), G.n_decls]
     chk.obligation('driver tables are the ones just generated (sizes)', ok, ' '.join(info))
     names_ok = (drv.batch('ename %d' % i for i in range(V.n)) == ['ok ' + x for x in V.EN] and
                 drv.batch('aname %d' % i for i in range(V.na)) == ['ok ' + x for x in V.AN] and
@@ -220,6 +220,7 @@ class Sweep(object):
         self.element = element
         self.Element = element.Element
         self.values = {}
+        self.reported = {}
 
     # ---- schema decisions, by id
     def schema_child(self, p, c):
@@ -232,6 +233,7 @@ class Sweep(object):
         en = V.EN[e]
         xn = '' if x is None else ('*' if x == '*' else (V.EN[x] if kind == 'children' else V.AN[x]))
         self.chk.count('schema_diff_' + kind)
+        self.reported[kind] = self.reported.get(kind, 0)
         if excepted(V, kind, en, xn):
             self.chk.count('excepted_' + kind)
             return
@@ -240,7 +242,14 @@ class Sweep(object):
         if xn != '*' and kind in ('children', 'attrs') and any(k['sig'] == star for k in self.chk.known):
             self.chk.fail(star, case, detail)
             return
-        self.chk.fail(sig_of(kind, en, xn), case, detail)
+        sig = sig_of(kind, en, xn)
+        if not any(k['sig'] == sig for k in self.chk.known):
+            # an unlisted row: a violation.  Keep the report readable when a logic change makes thousands of rows differ
+            self.reported[kind] += 1
+            if self.reported[kind] > 8:
+                self.chk.count('further_unlisted_rows_' + kind)
+                return
+        self.chk.fail(sig, case, detail)
 
     # ---- addElement
     def children(self):
@@ -545,6 +554,7 @@ class Sweep(object):
 
 # ---------------------------------------------------------------------------------------------------------------------
 SLICES = ['OdfModel.Props.C06.S%02d' % i for i in range(16)]
+AUX = ['OdfModel.Props.C06.Defs', 'OdfModel.Props.C06.Schema', 'OdfModel.Props.C06.Kw', 'OdfModel.Props.C06.Fuel']
 
 
 def run(chk, replay=None):
@@ -554,11 +564,21 @@ def run(chk, replay=None):
                 'factory; non-trivial = the element is declared by the shipped schemas')
     try:
         G = tg.translate(common.REPO)
-    except tg.TranslateError as e:
-        chk.obligation('translator', False, 'cannot translate: %s' % e, kind='translator')
+    except common.InfraError:
+        raise
+    except Exception as e:
+        # a schema construct the translator does not know, or odf/grammar.py / a factory module that no longer imports
+        chk.obligation('translator', False, 'cannot translate: %s: %s' % (type(e).__name__, e), kind='translator')
         return chk.finish()
     tg.write(chk, G)
-    chk.prove(modules=['OdfModel.Props.C06'] + SLICES, drivers=['drv_grammar'])
+    if replay is not None:
+        rc, out = chk.lake(['build', 'drv_grammar'])
+        if rc != 0:
+            raise common.InfraError('cannot build drv_grammar: ' + out[-800:])
+        drv = chk.driver('drv_grammar')
+        V = load_model(chk, G, drv)
+        return replay_one(chk, V, Sweep(chk, V, drv), replay)
+    chk.prove(modules=['OdfModel.Props.C06'] + SLICES + AUX, drivers=['drv_grammar'])
     drv = chk.driver('drv_grammar')
     V = load_model(chk, G, drv)
     check_second_opinion(chk, V)
@@ -569,8 +589,6 @@ def run(chk, replay=None):
                    '%d rows; only in Lean: %s; only in txt: %s' % (len(lean_known), sorted(set(lean_known) - set(txt_known))[:5], sorted(set(txt_known) - set(lean_known))[:5]),
                    kind='consistency')
     sw = Sweep(chk, V, drv)
-    if replay is not None:
-        return replay_one(chk, V, sw, replay)
     t = time.time(); sw.children(); chk.count('t_children_s', round(time.time() - t, 1))
     t = time.time(); sw.text(); chk.count('t_text_s', round(time.time() - t, 1))
     t = time.time(); sw.attributes(); chk.count('t_attrs_s', round(time.time() - t, 1))
